@@ -3,6 +3,7 @@ package main
 import (
 	"encoding/json"
 	"fmt"
+	"reflect"
 	"sort"
 	"strings"
 
@@ -143,12 +144,29 @@ func sortedKeys(m map[int]string) []int {
 }
 
 func (d *eDoc) build() *be.Document {
+	newCallerObject()
 	doc := be.NewDocument(be.DocID(d.ID))
+	// a caller may hand the library SUB-SLICES of one table: a typed list that is a proper prefix of an earlier list
+	// of the same document is materialised as that list's prefix (same backing array)
+	var tables []reflect.Value
+	share := func(v interface{}) interface{} {
+		rv := reflect.ValueOf(v)
+		if v == nil || rv.Kind() != reflect.Slice || rv.Len() == 0 || rv.Type().Elem().Kind() == reflect.Interface {
+			return v
+		}
+		for _, t := range tables {
+			if t.Type() == rv.Type() && rv.Len() < t.Len() && reflect.DeepEqual(t.Slice(0, rv.Len()).Interface(), v) {
+				return t.Slice(0, rv.Len()).Interface()
+			}
+		}
+		tables = append(tables, rv)
+		return v
+	}
 	for _, cj := range d.Cons {
 		conj := be.NewConjunction()
 		for _, e := range cj {
 			conj.AddBoolExprs(&be.BooleanExpr{Field: fieldName(e.F),
-				BoolValues: be.BoolValues{Incl: e.Inc, Value: e.V.Value(), Operator: be.ValueOpt(e.Op)}})
+				BoolValues: be.BoolValues{Incl: e.Inc, Value: share(e.V.Value()), Operator: be.ValueOpt(e.Op)}})
 		}
 		doc.AddConjunction(conj)
 	}
@@ -156,6 +174,7 @@ func (d *eDoc) build() *be.Document {
 }
 
 func (q *eQuery) build() be.Assignments {
+	newCallerObject()
 	a := be.Assignments{}
 	for _, x := range q.A {
 		a[fieldName(x.F)] = x.V.Value()
@@ -373,6 +392,8 @@ func execE2E(raw json.RawMessage) (res execResult, err error) {
 	}
 	outs := make([]string, len(c.Docs))
 	if c.Batch > 1 {
+		defer func(v bool) { callerReusesBuffers = v }(callerReusesBuffers)
+		callerReusesBuffers = false // the documents of one group are alive together
 		// AddDocument(docs...) stops at the first document it refuses: classify every document on a scratch builder
 		// first, then hand the real builder groups that end at (and include) the first refused document
 		scratch := newBuilder(&c)
